@@ -59,91 +59,25 @@ theorem shadow_widths :
     1 ≤ ModeLayout.w_mode_altscreen ∧ 1 ≤ ModeLayout.w_mode_cursorvis ∧ 1 ≤ ModeLayout.w_mode_cursorblink ∧
     2 ≤ ModeLayout.w_mode_cursorshape ∧ 2 ≤ ModeLayout.w_mode_mouse ∧ 1 ≤ ModeLayout.w_mode_keypad := by decide
 
-/-! ### the terminal after a history -/
-
-/-- The system after building and performing `ops`. -/
-def sysAfter (cfg : Cfg) (toplevel : Bool) (ops : List Op) : Sys := (Sys.run cfg (Sys.build toplevel).1 ops).1
-
-/-- The terminal (started in modes `m0`, default rendition) having read every byte written by building
-    and by `ops`. -/
-def vtAfter (cfg : Cfg) (toplevel : Bool) (m0 : VModes) (ops : List Op) : VT :=
-  VT.feed (VT.feed ⟨.ground, m0, Attrs.default⟩ (Sys.build toplevel).2) (Sys.run cfg (Sys.build toplevel).1 ops).2
-
-/-- What the program last set successfully, and the pen it asked for. -/
-def ghostAfter (cfg : Cfg) (toplevel : Bool) (ops : List Op) : Ghost := ghostRun cfg (Sys.build toplevel).1 {} ops
-
-/-- No operation of the history triggers one of the recorded defects of an unrepaired `cfg`. -/
-def TriggerFree (cfg : Cfg) (toplevel : Bool) (ops : List Op) : Prop := noTrigger cfg (Sys.build toplevel).1 {} ops = true
-
-instance (cfg : Cfg) (toplevel : Bool) (ops : List Op) : Decidable (TriggerFree cfg toplevel ops) := by
-  unfold TriggerFree; infer_instance
-
-theorem after_inv (cfg : Cfg) (toplevel : Bool) (m0 : VModes) (ops : List Op) (ph : Phase)
-    (hm0 : m0.standard = true) (hv : validFrom .running ops = some ph) (hnt : TriggerFree cfg toplevel ops) :
-    MInv cfg (sysAfter cfg toplevel ops) (vtAfter cfg toplevel m0 ops) ph (ghostAfter cfg toplevel ops) :=
-  run_inv cfg ops _ _ .running ph {} (build_inv cfg toplevel m0 hm0) hv hnt
-
-/-- With the keypad recorded and the replies guarded nothing is a trigger. -/
-theorem triggerFree_of_repaired (cfg : Cfg) (hk : cfg.keypadRecorded = true) (hr : cfg.repliesGuarded = true)
-    (toplevel : Bool) (ops : List Op) : TriggerFree cfg toplevel ops := by
-  unfold TriggerFree
-  generalize (Sys.build toplevel).1 = s
-  generalize ({} : Ghost) = g
-  induction ops generalizing s g with
-  | nil => rfl
-  | cons op rest ih =>
-    simp only [noTrigger, Bool.and_eq_true, Bool.not_eq_true']
-    refine ⟨?_, ih _ _⟩
-    cases op <;> simp [trigger, hk, hr]
-    rename_i c v
-    cases c with
-    | none => rfl
-    | some c => cases c <;> simp [trigger, hk]
-
 /-! ### `shadow_inv`, `resume_reestablishes` -/
 
-/-- **shadow_inv.** While the terminal is running (in particular after every resume), the terminal's
-    alternate-screen, cursor-visibility, mouse-reporting and keypad modes are exactly the values last
-    set through the control interface. -/
+/-- **shadow_inv** (full statement). While the terminal is running (in particular after every resume), the
+    terminal's alternate-screen, cursor-visibility, mouse-reporting (with its SGR encoding) and keypad modes
+    are exactly the values last set through the control interface. -/
+def ShadowInv (cfg : Cfg) : Prop :=
+  ∀ (toplevel : Bool) (m0 : VModes) (ops : List Op), m0.standard = true →
+    validFrom .running ops = some .running →
+    modesShown (vtAfter cfg toplevel m0 ops).modes (ghostAfter cfg toplevel ops) = true
+
 theorem shadow_inv_partial (cfg : Cfg) (toplevel : Bool) (m0 : VModes) (ops : List Op)
     (hm0 : m0.standard = true) (hv : validFrom .running ops = some .running) (hnt : TriggerFree cfg toplevel ops) :
     modesShown (vtAfter cfg toplevel m0 ops).modes (ghostAfter cfg toplevel ops) = true := by
   have h := after_inv cfg toplevel m0 ops .running hm0 hv hnt
   exact modesShown_of cfg _ _ _ (h.shown rfl) h.ghost
 
-theorem shadow_inv (cfg : Cfg) (hk : cfg.keypadRecorded = true) (hr : cfg.repliesGuarded = true)
-    (toplevel : Bool) (m0 : VModes) (ops : List Op)
-    (hm0 : m0.standard = true) (hv : validFrom .running ops = some .running) :
-    modesShown (vtAfter cfg toplevel m0 ops).modes (ghostAfter cfg toplevel ops) = true :=
-  shadow_inv_partial cfg toplevel m0 ops hm0 hv (triggerFree_of_repaired cfg hk hr toplevel ops)
-
-theorem ghostRun_append (cfg : Cfg) (a b : List Op) : ∀ (s : Sys) (g : Ghost),
-    ghostRun cfg s g (a ++ b) = ghostRun cfg (Sys.run cfg s a).1 (ghostRun cfg s g a) b := by
-  induction a with
-  | nil => intro s g; rfl
-  | cons op rest ih => intro s g; simp only [List.cons_append, ghostRun, Sys.run]; exact ih _ _
-
-theorem validFrom_append (a b : List Op) : ∀ (ph : Phase),
-    validFrom ph (a ++ b) = (validFrom ph a).bind (validFrom · b) := by
-  induction a with
-  | nil => intro ph; rfl
-  | cons op rest ih =>
-    intro ph
-    simp only [List.cons_append, validFrom]
-    split
-    · cases phaseNext ph op with
-      | none => rfl
-      | some p => simp only [Option.bind_some]; exact ih p
-    · rfl
-
-theorem noTrigger_append_pause_resume (cfg : Cfg) (ops : List Op) : ∀ (s : Sys) (g : Ghost),
-    noTrigger cfg s g ops = true → noTrigger cfg s g (ops ++ [.pause, .resume]) = true := by
-  induction ops with
-  | nil => intro s g _; rfl
-  | cons op rest ih =>
-    intro s g h
-    simp only [List.cons_append, noTrigger, Bool.and_eq_true] at h ⊢
-    exact ⟨h.1, ih _ _ h.2⟩
+theorem shadow_inv (cfg : Cfg) (hk : cfg.keypadRecorded = true) (hr : cfg.repliesGuarded = true) : ShadowInv cfg :=
+  fun toplevel m0 ops hm0 hv =>
+    shadow_inv_partial cfg toplevel m0 ops hm0 hv (triggerFree_of_repaired cfg hk hr toplevel ops)
 
 /-- **resume_reestablishes.** A pause/resume cycle appended to a history that left the terminal running
     ends with the terminal's modes equal to the values last set before the pause: resume re-establishes
@@ -256,6 +190,16 @@ theorem teardown_restores_counterexample_late_reply (k p : Bool) : ¬ TeardownRe
   cases k <;> cases p <;> decide
 
 set_option maxRecDepth 8000 in
+/-- After the late reply the shadow says "visible" while the terminal's cursor is hidden: the next
+    `ctl cursorvis 1` is taken for redundant and writes nothing, so the terminal and the value last set differ
+    while running. -/
+theorem shadow_inv_counterexample_late_reply (k p : Bool) : ¬ ShadowInv ⟨k, p, false⟩ := by
+  intro h
+  have h1 := h false {} (lateReplyHistory ++ [.ctl (some .cursorvis) 1]) rfl rfl
+  revert h1
+  cases k <;> cases p <;> decide
+
+set_option maxRecDepth 8000 in
 theorem getctl_last_set_counterexample_late_reply (k p : Bool) : ¬ GetctlLastSet ⟨k, p, false⟩ := by
   intro h
   have h1 := h false lateReplyHistory .running rfl
@@ -299,5 +243,65 @@ example : getctlOk (sysAfter Cfg.repaired false sampleHistory).term.drv (ghostAf
     alternate screen but no keypad and prompt replies is trigger-free. -/
 example : TriggerFree ⟨false, false, false⟩ false
     [.replyMode 25 1, .ctl (some .altscreen) 1, .ctl (some .cursorvis) 0, .ctl (some .mouse) 1, .pause, .resume] := by decide
+
+/-! ### `pen_survives_pause` -/
+
+/-- **pen_survives_pause** (full statement). After every history inside the contract that leaves the
+    terminal running - whatever pause/resume cycles it contains - the terminal renders with the pen the
+    program asked for: every attribute named by `setpen`/`chpen` since the terminal was built has, on the
+    terminal, the value last asked for (`Modes.logicalPen`), so that is what later drawing is rendered with. -/
+def PenSurvivesPause (cfg : Cfg) : Prop :=
+  ∀ (toplevel : Bool) (m0 : VModes) (ops : List Op), validFrom .running ops = some .running →
+    penShown (vtAfter cfg toplevel m0 ops).attrs (ghostAfter cfg toplevel ops).pen = true
+
+theorem pen_survives_pause_partial (cfg : Cfg) (toplevel : Bool) (m0 : VModes) (ops : List Op)
+    (hv : validFrom .running ops = some .running) (hnt : PenTriggerFree cfg toplevel ops) :
+    penShown (vtAfter cfg toplevel m0 ops).attrs (ghostAfter cfg toplevel ops).pen = true :=
+  penShown_of _ _ _ (prun_inv cfg ops _ _ .running .running {} (build_pinv toplevel m0) hv hnt)
+
+theorem pen_survives_pause (cfg : Cfg) (hr : cfg.resumeResendsPen = true) : PenSurvivesPause cfg :=
+  fun toplevel m0 ops hv =>
+    pen_survives_pause_partial cfg toplevel m0 ops hv (noPenTrigger_of_repaired cfg hr ops _)
+
+/-- The cached pen *is* the logical pen (so "rendered with the cached pen" and "rendered with the pen asked
+    for" are the same statement). -/
+theorem cached_pen_is_logical (cfg : Cfg) (toplevel : Bool) (m0 : VModes) (ops : List Op) (ph : Phase)
+    (hv : validFrom .running ops = some ph) (hnt : PenTriggerFree cfg toplevel ops) :
+    (sysAfter cfg toplevel ops).term.pen = (ghostAfter cfg toplevel ops).pen :=
+  (prun_inv cfg ops _ _ .running ph {} (build_pinv toplevel m0) hv hnt).pen
+
+/-- `setpen bold; pause; resume`: the terminal renders plain, the pen asked for (and cached) is bold; a
+    following `setpen bold` writes nothing. -/
+def pausePenHistory : List Op := [.setpen (fun a => if a = .bold then some 1 else none), .pause, .resume]
+
+set_option maxRecDepth 8000 in
+theorem pen_survives_pause_counterexample (k r : Bool) : ¬ PenSurvivesPause ⟨k, false, r⟩ := by
+  intro h
+  have h1 := h false {} pausePenHistory rfl
+  revert h1
+  cases k <;> cases r <;> decide
+
+set_option maxRecDepth 8000 in
+/-- … and the next `setpen bold` indeed emits no byte on the unrepaired variant. -/
+theorem pause_pen_next_setpen_silent :
+    ((sysAfter ⟨true, false, true⟩ false pausePenHistory).step ⟨true, false, true⟩
+      (.setpen (fun a => if a = .bold then some 1 else none))).out = [] := by decide
+
+example : validFrom .running pausePenHistory = some .running ∧ ¬ PenTriggerFree ⟨true, false, true⟩ false pausePenHistory := by
+  decide
+
+example : penShown (vtAfter Cfg.repaired true {} sampleHistory).attrs (ghostAfter Cfg.repaired true sampleHistory).pen = true :=
+  pen_survives_pause Cfg.repaired rfl true {} sampleHistory (by decide)
+
+set_option maxRecDepth 8000 in
+/-- The sample history's pen is visible on the terminal after two pause/resume cycles (bold, palette 200). -/
+example : (vtAfter Cfg.repaired false {} sampleHistory).attrs .bold = 1 ∧
+    (vtAfter Cfg.repaired false {} sampleHistory).attrs .fg = 200 := by decide
+
+/-- The partial theorem is not vacuous on the tree as found: pens with pause/resume are fine as long as the
+    pen cached at resume is a default one. -/
+example : PenTriggerFree ⟨false, false, false⟩ false
+    [.setpen (fun a => if a = .bold then some 1 else none), .setpen PenMap.empty, .pause, .resume,
+     .setpen (fun a => if a = .bold then some 1 else none)] := by decide
 
 end Tickit.Props.C12
